@@ -197,6 +197,17 @@ def main(write, HEADER, parse, PKG):
     if len(body) != 5 or [a.arg for a in fn.args.args] != ["self", "b_over_h"]:
         _DEFERRED.append(Unsupported(f1, fn, f"grab_g_function is no longer the five transcribed statements ({len(body)} statements): "
                                              "it must read its ingredients on every call"))
+    # ------------------------------------------------------------------ compute_g_functions
+    fn = find_function(t1, "BaseGHE.compute_g_functions")
+    if fn is None:
+        raise Unsupported(f1, t1, "BaseGHE.compute_g_functions not found")
+    # the refreshed family is a NEW GFunction object (empty interpolation table); nothing of the old one is written to
+    _need_text(f1, fn, ["self.gFunction = g_function"])
+    for st in _stmts(fn.body):
+        if isinstance(st, (ast.Assign, ast.AugAssign)):
+            tg = st.targets if isinstance(st, ast.Assign) else [st.target]
+            if any(ast.unparse(t).startswith("self.gFunction.") for t in tg):
+                _DEFERRED.append(Unsupported(f1, st, "compute_g_functions writes into the existing GFunction object (its interpolation table is keyed by kind and fill mode only)"))
     out.append("\nend GHEVerif.Gen.GJoinConsts\n")
     write("GJoinConsts.lean", "\n".join(out))
     if _DEFERRED:
